@@ -702,7 +702,7 @@ def purity_family(ck, classes, pool, mode="check"):
     for rep in range(reps):
         for cname in ("Circuit", "StandardCircuit", "EfficientCircuit", "OneCircuit", "BinaryCircuit"):
             n = rng.choice([2, 3])
-            qc = QuantumCircuit(n, n)
+            qc = QuantumCircuit(n, n, name="circ")
             prog = []
             for _ in range(rng.randint(3, 7)):
                 r = rng.random()
